@@ -797,7 +797,7 @@ func ruleNAV2(p *Program) *RuleResult {
 			}
 		}
 	}
-	r.floor("identifier_sinks", 4)
+	r.floor("identifier_sinks", 2)
 	return r
 }
 
